@@ -394,6 +394,14 @@ def load_glb(
     if chunk_type != _magic["json"]:
         raise ValueError("no initial JSON header!")
 
+    # the number of bytes that are actually left in the file: a corrupt
+    # chunk length would otherwise make `read` allocate up to 4GB up front
+    position = file_obj.tell()
+    remaining = file_obj.seek(0, 2) - position
+    file_obj.seek(position)
+    if int(chunk_length) > remaining:
+        raise ValueError("JSON chunk is longer than the file!")
+
     # uint32 causes an error in read, so we convert to native int
     # for the length passed to read, for the JSON header
     json_data = file_obj.read(int(chunk_length))
@@ -432,8 +440,8 @@ def load_glb(
         # make sure we have the right data type
         if chunk_type != _magic["bin"]:
             raise ValueError("not binary GLTF!")
-        # read the chunk
-        chunk_data = file_obj.read(int(chunk_length))
+        # read the chunk but never ask for more than the file holds
+        chunk_data = file_obj.read(min(int(chunk_length), remaining))
         if len(chunk_data) != chunk_length:
             raise ValueError("chunk was not expected length!")
         buffers.append(chunk_data)
